@@ -4,6 +4,8 @@ Every random choice derives from one splitmix64 state, so a (seed, index) pair r
 trace exactly.  The generator looks only at what it sent and at the implementation's
 answers (never at the model)."""
 
+import time
+
 from . import canon
 
 MASK = (1 << 64) - 1
@@ -77,6 +79,11 @@ def deploy_line(variant, caller, rnd, epoch, lp, per, paytok, price, nrw, conf, 
     return " ".join(str(p) for p in parts)
 
 
+# wall-clock deadline of the exploration (set by checks before the worker pool forks): once it has passed, running
+# traces stop at their next operation and are evaluated as far as they got
+DEADLINE = [None]
+
+
 class TraceEnded(Exception):
     """an operation never answered (cut by proc.OP_TIMEOUT): the trace ends here and is evaluated as it is"""
 
@@ -105,6 +112,9 @@ class Trace:
         self.ret_div = {}        # endpoint -> index of the first completed/interrupted disagreement on it
 
     def send(self, line, model_line=None):
+        if DEADLINE[0] is not None and time.time() > DEADLINE[0] + 30:
+            self.cut_short = True
+            raise TraceEnded(self)
         try:
             i, m = self.pair.op(line, model_line)
         except RuntimeError as ex:
